@@ -1,6 +1,6 @@
 # C20 — policy-driven issuance is bounded: ecosystem mint cap and AMM reward allocations
 LEAN_MODULES = ["Sif.Props.C20"]
-EXTRACT = [{"group": "disp", "passes": ["dispconsts", "mintcallers", "disphooks", "accureset", "blockshare", "migrations"]}]
+EXTRACT = [{"group": "disp", "passes": ["dispconsts", "mintcallers", "disphooks", "accureset", "blockshare", "migrations", "mintsource"]}]
 FAMILIES = [
     {"name": "mint", "family": "mint", "group": "disp", "driver": "drv_issue", "n_quick": 6000, "n_thorough": 60000, "seeds_thorough": 3},
     {"name": "dispmsgs", "family": "disp", "group": "disp", "driver": "drv_disp", "n_quick": 600, "n_thorough": 6000, "seeds_thorough": 2},
@@ -9,7 +9,8 @@ FAMILIES = [
     {"name": "rwedits", "family": "rwedits", "group": "disp", "driver": "drv_issue", "n_quick": 3000, "n_thorough": 30000, "seeds_thorough": 4},
     {"name": "rewards", "family": "rewards", "group": "disp", "driver": "drv_issue", "n_quick": 6000, "n_thorough": 60000, "seeds_thorough": 4},
 ]
-RULE = ("mint: real dispensation BeginBlocker on the real keeper/bank, block histories with the counter started 0..6 blocks below the cap "
+RULE = ("mint: real dispensation BeginBlocker on the real keeper/bank, block headers of chain id sifchain-1 / sifchain-testnet-1 / sifchain-devnet-1 / localnet / empty / another "
+        "(also the genesis chain id of the full-app restart family), judged against the regenerated compiled-in 225 rowan per block and the 350,000,000 cap; block histories with the counter started 0..6 blocks below the cap "
         "(remainders 0, 1, perBlock-1, random), at the cap, above it, at 0, absent; ecosystem pool blocked (send fails) in half of the runs; "
         "coins arriving at the module account / pool in between. rewards: real clp EndBlocker over 1-3 sequential reward periods per schedule "
         "(lengths 1..12, gaps, allocation 0 / <30 / 1000 / up to 2^100, mod 0..6 and > length, distribute flag, default multiplier 0..2, one pool "
